@@ -6,6 +6,7 @@
   is outside code; it appears as the parameter `resolve`, which says what a marker evaluates to.
 -/
 import Sigverif.Model.Mask
+import Sigverif.Model.Bind
 import Sigverif.Model.Visitor
 namespace SV
 
@@ -16,6 +17,19 @@ inductive RVal where
   | other                    -- some other value
   | unresolvable             -- UnresolvableName
 
+/-- `sig.bind_partial(*args, **kwargs)` succeeds (shape level; a missing argument is fine) -/
+def bindPartialOk (s : List Param) (n : Nat) (K : List Nat) : Bool :=
+  let pos := positionals s
+  if n > pos.length && !hasVa s then false else
+  (bindKw (kwNames s) (hasVk s) ((pos.take n).map (·.name)) K).isSome
+
+/-- retrieving the callee's signature with the written arguments bound
+    (`forged_signature(wrapped_func, args=…, kwargs=…)`): when the callee itself has star parameters
+    (and source), its own discovery starts with `sig.bind_partial(*args, **kwargs)`, whose
+    TypeError makes the whole discovery give up -/
+def calleeRetrievable (wsig : USig) (n : Nat) (K : List Nat) : Bool :=
+  !(hasVa wsig.params || hasVk wsig.params) || bindPartialOk wsig.params n K
+
 /-- `forward_signatures(func, calls, args, kwargs, sig)` for one call record.
     `none` = the call is skipped (`if not (use_varargs or use_varkwargs): continue`). -/
 def forwardSig (sig : USig) (resolve : RM → RVal) (c : CallRec) : Except Err (Option USig) :=
@@ -24,6 +38,7 @@ def forwardSig (sig : USig) (resolve : RM → RVal) (c : CallRec) : Except Err (
   | .unresolvable => .error .unknownForwards            -- rn(wrapped, unknown=False) raised
   | .other => .error .unknownForwards                   -- forged_signature(non-callable): TypeError/ValueError
   | .fn wsig =>
+    if !calleeRetrievable wsig c.args.length (c.kwargs.map (·.1)) then .error .unknownForwards else
     match forwards sig wsig c.args.length (c.kwargs.map (·.1)) c.hideA c.hideK c.useVa c.useVk false with
     | .ok s => .ok (some s)
     | .error _ => .error .unknownForwards
@@ -34,6 +49,7 @@ def forwardSig (sig : USig) (resolve : RM → RVal) (c : CallRec) : Except Err (
     | a0 :: _ =>
       match resolve a0 with
       | .fn wsig =>
+        if !calleeRetrievable wsig (c.args.length - 1) (c.kwargs.map (·.1)) then .error .unknownForwards else
         match forwards sig wsig (c.args.length - 1) (c.kwargs.map (·.1)) c.hideA c.hideK c.useVa c.useVk true with
         | .ok s => .ok (some s)
         | .error _ => .error .unknownForwards
